@@ -284,6 +284,87 @@ def pair_task(task):
     return acc
 
 
+# ---- large files ------------------------------------------------------------------------------------------
+# files beyond 1 MiB (1035 blocks and more): nothing in the statement bounds the file size, and real clearing files
+# are larger than this. The payload pattern has a prime period (65521) so that no block, buffer or power-of-two
+# boundary repeats it.
+
+LARGE_SCRIPTS = ['all', 4096, 65536, 1 << 20, (1 << 20) + 1, 1012, 1014, 1000003, 3 << 20, 'records']
+_PATTERN = bytes(((j * j) + j // 251) & 0xff for j in range(65521))
+
+
+def large_payload(nblocks, seed):
+    n = nblocks * 1012
+    rot = seed % 65521
+    pat = _PATTERN[rot:] + _PATTERN[:rot]
+    return (pat * (n // 65521 + 1))[:n]
+
+
+def large_task(task):
+    from cardutil.mciipm import Unblock1014, VbsReader
+    from vf import fileobjs
+    acc = core.Acc()
+    nb, script, kind = task['blocks'], task['script'], task['kind']
+    case = {'large': True, 'blocks': nb, 'script': script, 'kind': kind, 'seed': _SEED}
+    acc.case(('large', nb, script, kind), nontrivial=True, outcome='large_file')
+    if script == 'records':
+        # the same size as a stream of 6000-byte records read through the blocked record reader
+        pay = large_payload(nb, _SEED)
+        recs = [pay[i:i + 6000] for i in range(0, len(pay) - 6000 * 2, 6000)]
+        stream = vbs_ref.frame(recs)
+        fo, done = fileobjs.reader(kind, blk_ref.block(stream))
+        try:
+            n = 0
+            for i, r in enumerate(VbsReader(fo, blocked=True)):
+                n += 1
+                if r != recs[i]:
+                    acc.viol('c05.large.records', case, 'record %d differs' % (i + 1), 'the records written')
+                    return acc
+            if n != len(recs):
+                acc.viol('c05.large.records', case, '%d records' % n, '%d records' % len(recs))
+        except Exception as ex:
+            acc.viol('c05.large.exception', case, repr(ex), 'the records written')
+        finally:
+            done()
+        return acc
+    pay = large_payload(nb, _SEED)
+    fo, done = fileobjs.reader(kind, blk_ref.block(pay))
+    try:
+        u = Unblock1014(fo)
+        pos = 0
+        while True:
+            out = u.read() if script == 'all' else u.read(script)
+            acc.transitions += 1
+            exp = pay[pos:] if script == 'all' else pay[pos:pos + script]
+            if bytes(out) != exp:
+                d = next((i for i in range(min(len(out), len(exp))) if out[i] != exp[i]), min(len(out), len(exp)))
+                acc.viol('c05.large.read', case, 'read at payload offset %d returned %d bytes, first difference at +%d'
+                         % (pos, len(out), d), 'the next %d payload bytes' % len(exp),
+                         'file of %d blocks (%d bytes)' % (nb, nb * 1014))
+                break
+            pos += len(exp)
+            if not exp:
+                break
+    except Exception as ex:
+        acc.viol('c05.large.exception', case, repr(ex), 'payload')
+    finally:
+        done()
+    return acc
+
+
+def large_tasks(tier):
+    sizes = [1034, 1035, 1036, 2071] if tier == 'quick' else [1034, 1035, 1036, 2069, 2070, 2071, 3106, 4200]
+    ts = []
+    for nb in sizes:
+        for i, script in enumerate(LARGE_SCRIPTS):
+            kinds = ['bytesio', 'file', 'pipe', 'minimal']
+            if tier == 'quick':
+                kinds = [kinds[(i + nb) % 4]] if script not in ('all', 4096) else kinds
+            for kind in kinds:
+                ts.append({'blocks': nb, 'script': script, 'kind': kind})
+    return ts
+
+
 def run(tier, seed):
     global _TIER, _SEED
     _TIER, _SEED = tier, seed
@@ -312,6 +393,9 @@ def run(tier, seed):
     prs = [(a, b) for a in range(len(PAIR_SCRIPTS)) for b in range(len(PAIR_SCRIPTS))]
     for a in core.pmap(pair_task, [{'pairs': ch} for ch in core.chunks(prs, 16)]):
         acc.merge(a)
+    lts = large_tasks(tier) if core.AXIS == '' else large_tasks('quick')[::5]
+    for a in core.pmap(large_task, lts):
+        acc.merge(a)
     caps = [acc.counters['bfs_cap_hit']] if 'bfs_cap_hit' in acc.counters else []
     if acc.counters.get('abstraction_mismatches'):
         caps.append('%d states behaved differently from their two representative histories'
@@ -326,12 +410,16 @@ def run(tier, seed):
                 'block_1014 for every length; every truncation length 0..3042 and every value of each of the 6 '
                 'trailer bytes of a 3-block file must be refused; blocked vs unblocked record reading over %d '
                 'record-length lists; two unblockers on different files with their reads interleaved in every order '
-                '(64 script pairs x 20 merges).' % (maxb, 'every read size 1..2024 and read()' if tier == 'thorough' else
+                '(64 script pairs x 20 merges); files of 1034..%d blocks (beyond 1 MiB) read to the end with read(), '
+                'with uniform read sizes 1012 .. 3 MiB and through the blocked record reader, from an in-memory '
+                'file, a real file, a non-seekable stream and an object that only has read().' % (maxb, 'every read size 1..2024 and read()' if tier == 'thorough' else
                                          'a boundary-relative menu of read sizes (around the buffer length, 1012, '
-                                         '2024, the distance to the next block edge) and read()', len(lists)),
+                                         '2024, the distance to the next block edge) and read()', len(lists),
+                                         2071 if tier == 'quick' else 4200),
         'assumptions': ['read(0) is excluded: the signature default 0 means "no size", so an explicit 0 cannot be '
                         'told from it', 'inputs are whole blocks with correct trailers (cut files: C09)',
-                        'read sizes above 2024 (two blocks) repeat the same refill loop'],
+                        'in the state search read sizes stop at 2024 (two blocks); larger reads are covered on the '
+                        'large files only'],
         'bounds': {'blocks': maxb, 'read_size_max': 2024 if tier == 'thorough' else 'menu',
                    'distinct_delivered_offsets': len(delivered)},
         'exhaustive': not caps,
@@ -352,6 +440,8 @@ def replay_case(case):
             return oneshot_task({'kind': 'truncate', 'lo': case['len'], 'hi': case['len'] + 1})
         a = oneshot_task({'kind': 'trailer', 'positions': [case['pos']]})
         return a
+    if case.get('large'):
+        return large_task(case)
     if 'records' in case:
         return record_task({'lists': [case['records']]})
     if 'pair' in case:
